@@ -1,7 +1,7 @@
 /-
-The temporary name `write_to_textfile` builds from the GENERATED parts list (C18): it differs from the target, and it
-is injective in (pid, thread ident) — so two concurrently running writers, whose (pid, thread ident) pairs differ,
-never share a temporary file.
+The temporary name `write_to_textfile` builds (C18).  The lemmas here are about fixed part lists (`canonParts`,
+`cachedParts`) and about any list of the form `path :: lit s :: …`; that the GENERATED list is one of them is decided in
+`Props/C18.lean`, so a source change to the name shows up there, at the theorem that states what the name guarantees.
 -/
 import PromVerif.Model.Textfile
 
@@ -43,8 +43,23 @@ theorem split_unique {c : Char} : ∀ (a a' b b' : List Char), c ∉ a → c ∉
       obtain ⟨h1, h2⟩ := ih s b b' (fun m => h0 (List.mem_cons_of_mem _ m)) (fun m => h' (List.mem_cons_of_mem _ m)) h.2
       exact ⟨by rw [h.1, h1], h2⟩
 
-theorem tmpName_eq (path : Path) (pid tid : Nat) :
-    tmpName tmpPathParts path pid tid = path ++ '.' :: (natDigits pid ++ '.' :: natDigits tid) := by
-  simp [tmpName, tmpPathParts]
+/-- the shape the property's anchor names: `path.<pid>.<thread id>` with the LIVE pid -/
+def canonParts : List TmpPart := [.path, .lit ['.'], .pid, .lit ['.'], .threadIdent]
+
+/-- the variant with the pid cached in a module-level constant at import -/
+def cachedParts : List TmpPart := [.path, .lit ['.'], .cachedPid, .lit ['.'], .threadIdent]
+
+theorem tmpName_canon (path : Path) (pid ip tid : Nat) :
+    tmpName canonParts path pid ip tid = path ++ '.' :: (natDigits pid ++ '.' :: natDigits tid) := by
+  simp [tmpName, canonParts]
+
+theorem tmpName_cached (path : Path) (pid ip tid : Nat) :
+    tmpName cachedParts path pid ip tid = path ++ '.' :: (natDigits ip ++ '.' :: natDigits tid) := by
+  simp [tmpName, cachedParts]
+
+/-- any name that starts `path ++ <literal> ++ …` -/
+theorem tmpName_head (s : List Char) (rest : List TmpPart) (path : Path) (pid ip tid : Nat) :
+    tmpName (.path :: .lit s :: rest) path pid ip tid = path ++ (s ++ tmpName rest path pid ip tid) := by
+  simp [tmpName]
 
 end PromVerif.Model.Textfile
